@@ -5,6 +5,7 @@ package main
 
 import (
 	"fmt"
+	"math/rand/v2"
 	"os"
 	"runtime"
 	"sort"
@@ -147,7 +148,26 @@ func hookMark() { atomic.StoreUint32(&mon.abortDirty, 0) }
 
 func hookDirtySinceMark() bool { return atomic.LoadUint32(&mon.abortDirty) != 0 }
 
+// raceMode (C14): the monitor's own mutex and atomic counters would order the
+// server's goroutines with each other at every hook event and hide data races
+// from the race detector.  In this mode the hook only injects yields, decided
+// by the runtime's lock-free per-thread generator.  Set before any server
+// goroutine exists, never changed while they run.
+var raceMode bool
+
 func hookEvent(ev int, t interface{}, inum uint64) {
+	if raceMode {
+		switch ev {
+		case vh.EvWant, vh.EvPreCommit, vh.EvPostCommit, vh.EvAbort, vh.EvShrinkIter:
+			switch y := rand.Uint32() % 16; {
+			case y < 4:
+				runtime.Gosched()
+			case y == 4:
+				time.Sleep(time.Duration(20+rand.Uint32()%200) * time.Microsecond)
+			}
+		}
+		return
+	}
 	progressTick()
 	m := mon
 	if ev == vh.EvAbort || ev == vh.EvCommitFailed {
@@ -262,6 +282,9 @@ func hookEvent(ev int, t interface{}, inum uint64) {
 			}
 		}
 	case vh.EvGot:
+		// a yield while holding the lock lets other requests queue up on it,
+		// so that the release is followed at once by their acquisition
+		doYield = true
 		ts.waiting = 0
 		ts.held = append(ts.held, inum)
 		m.owner[inum] = ts
